@@ -244,18 +244,11 @@ harness(void)
 
 	/* ---- buffer length L and number length D: constant on each path, all pairs */
 	for (int L = 1; L <= OUTMAX; L++) {
-#ifdef SF_SYMBOLIC_D
-		if (IN.outlen == L) {
-			run_case(L, IN.numlen, base);
-			V_PATH_END("case done");
-		}
-#else
 		for (int D = 1; D <= NUMLEN_MAX; D++) {
 			if (IN.outlen == L && IN.numlen == D) {
 				run_case(L, D, base);
 				V_PATH_END("case done");
 			}
 		}
-#endif
 	}
 }
